@@ -10,6 +10,7 @@ from . import common, molprops
 
 SPEC = {
     "level": "exploration",
+    "suite_under_monitor": True,
     "technique": "runtime contracts (icontract snapshot+ensure) on canonicalize_molecule and serialize_molecule with unique atom/bond tags; repeated-call histories",
     "rule": ("cases: M1 n<=4, M2 (charges, coordinates, bond types), M3, M4, M5, M7-small, corpus V3000+V2000; every atom carries a unique tag and a foreign "
              "attribute, every bond a unique tag; each case is followed by a random history of 3-6 further calls on the same objects. distinct_nontrivial = "
